@@ -40,8 +40,9 @@ structure IMInv (im : IM) : Prop where
   nodup : im.names.Nodup
   sels : im.selectors = im.imports.map selEntry
   modules : (im.imports.map (·.module)).Nodup
+  noReserved : ∀ n ∈ im.names, n ∉ im.reserved
 
-theorem inv_empty : IMInv {} := ⟨rfl, by simp, rfl, by simp⟩
+theorem inv_fresh (dyn : Bool) : IMInv (IM.fresh dyn) := ⟨rfl, by simp [IM.fresh], rfl, by simp [IM.fresh], by simp [IM.fresh]⟩
 
 theorem boundName_alias (st : Import) (u : String) : ({ st with alias := some u } : Import).boundName = u := by
   simp [Import.boundName]
@@ -51,11 +52,13 @@ theorem inv_add (im im' : IM) (st : Import) (h : IMInv im) (ha : im.add st = som
   split at ha
   · cases ha; exact h
   · rename_i hnone
-    cases hu : uniquify st.boundName im.names with
+    cases hu : uniquify st.boundName (im.reserved ++ im.names) with
     | none => simp [hu] at ha
     | some u =>
       simp only [hu, Option.some.injEq] at ha
-      have hfresh := uniquify_spec _ _ _ hu
+      have hfresh0 := uniquify_spec _ _ _ hu
+      have hfresh : u ∉ im.names := fun hmem => hfresh0 (List.mem_append_right _ hmem)
+      have hres : u ∉ im.reserved := fun hmem => hfresh0 (List.mem_append_left _ hmem)
       have hkeys : st.module ∉ im.imports.map (·.module) := by
         intro hm
         have : (lookup st.module im.selectors).isSome := by
@@ -66,7 +69,7 @@ theorem inv_add (im im' : IM) (st : Import) (h : IMInv im) (ha : im.add st = som
       by_cases hub : u = st.boundName
       · subst ha
         simp only [hub, if_true]
-        refine ⟨by simp [h.names], ?_, by simp [h.sels, selEntry], ?_⟩
+        refine ⟨by simp [h.names], ?_, by simp [h.sels, selEntry], ?_, ?_⟩
         · rw [List.nodup_append]
           refine ⟨h.nodup, by simp, ?_⟩
           intro a ha b hb e
@@ -80,9 +83,14 @@ theorem inv_add (im im' : IM) (st : Import) (h : IMInv im) (ha : im.add st = som
           simp only [List.mem_singleton] at hb
           subst hb; subst e
           exact hkeys ha
+        · intro n hn
+          simp only [List.mem_append, List.mem_singleton] at hn
+          rcases hn with hn | rfl
+          · exact h.noReserved n hn
+          · rw [← hub]; exact hres
       · subst ha
         simp only [hub, if_false, boundName_alias]
-        refine ⟨by simp [h.names, boundName_alias], ?_, ?_, ?_⟩
+        refine ⟨by simp [h.names, boundName_alias], ?_, ?_, ?_, ?_⟩
         · rw [List.nodup_append]
           refine ⟨h.nodup, by simp, ?_⟩
           intro a ha b hb e
@@ -97,6 +105,11 @@ theorem inv_add (im im' : IM) (st : Import) (h : IMInv im) (ha : im.add st = som
           simp only [List.mem_singleton] at hb
           subst hb; subst e
           exact hkeys ha
+        · intro n hn
+          simp only [List.mem_append, List.mem_singleton] at hn
+          rcases hn with hn | rfl
+          · exact h.noReserved n hn
+          · exact hres
 
 /-- **No two imports of the config string bind the same name**, whatever imports were recorded and in
     whatever order they are added. -/
@@ -112,10 +125,51 @@ theorem inv_addAll (im im' : IM) (l : List Import) (h : IMInv im) (ha : im.addAl
       simp only [hadd] at ha
       exact ih im1 (inv_add im im1 st h hadd) ha
 
-theorem bound_names_distinct (l : List Import) (im : IM) (ha : ({} : IM).addAll l = some im) :
+theorem bound_names_distinct (l : List Import) (im : IM) (dyn : Bool) (ha : (IM.fresh dyn).addAll l = some im) :
     (im.imports.map Import.boundName).Nodup := by
-  have h := inv_addAll {} im l inv_empty ha
+  have h := inv_addAll (IM.fresh dyn) im l (inv_fresh dyn) ha
   rw [← h.names]; exact h.nodup
+
+/-- **No import of the config string binds the reserved name `gin`** (a file that did would be refused): an
+    import whose natural name is `gin` — a module called `gin` somewhere in a package — is printed under an alias
+    (D34: the implementation used to print it as it was, and `config_str()` itself then failed). -/
+theorem no_import_binds_reserved (l : List Import) (im : IM) (ha : (IM.fresh true).addAll l = some im) :
+    ∀ st ∈ im.imports, st.boundName ≠ "gin" := by
+  have h := inv_addAll (IM.fresh true) im l (inv_fresh true) ha
+  have hres : im.reserved = reservedNames := by
+    have : ∀ (l : List Import) (a b : IM), a.addAll l = some b → b.reserved = a.reserved := by
+      intro l
+      induction l with
+      | nil => intro a b hab; simp [IM.addAll] at hab; subst hab; rfl
+      | cons st rest ih =>
+        intro a b hab
+        simp only [IM.addAll] at hab
+        cases hadd : a.add st with
+        | none => simp [hadd] at hab
+        | some a1 =>
+          simp only [hadd] at hab
+          rw [ih a1 b hab]
+          unfold IM.add at hadd
+          split at hadd
+          · cases hadd; rfl
+          · cases hu : uniquify st.boundName (a.reserved ++ a.names) with
+            | none => simp [hu] at hadd
+            | some u => simp only [hu, Option.some.injEq] at hadd; subst hadd; rfl
+    rw [this l _ _ ha]; rfl
+  intro st hst e
+  have hmem : st.boundName ∈ im.names := by
+    rw [h.names]; exact List.mem_map_of_mem hst
+  exact h.noReserved _ hmem (by rw [hres]; simp [reservedNames, e])
+
+/-- … so every one of them is accepted by a dynamic-registration file (it is no `__gin__` feature import, its module
+    exists): the symbol table such a file ends up with is the one `emitted_selector_resolves` reads selectors in. -/
+theorem printed_import_accepted (w : World) (l : List Import) (im : IM) (ha : (IM.fresh true).addAll l = some im)
+    (c : Ctx) (hd : c.dyn = true) (st : Import) (hst : st ∈ im.imports) (hg : isGinFeature st = false)
+    (m : Nat) (hm : w.importTarget st = some m) :
+    ∃ c', processImport w c st = .ok c' := by
+  have hne := no_import_binds_reserved l im ha st hst
+  unfold processImport
+  simp [hg, hd, hm, hne]
 
 /-! ### the emitted selectors resolve -/
 
@@ -184,14 +238,14 @@ def WorldCoherent (w : World) : Prop :=
     found at attribute path `name` of module `st.module` resolves to the object reached from that
     module by `name` — also when the import was re-aliased because its bound name collided. -/
 theorem emitted_selector_resolves (w : World) (hw : WorldCoherent w) (l : List Import) (im : IM)
-    (ha : ({} : IM).addAll l = some im) (order : List Import) (hperm : order.Perm im.imports)
+    (dyn : Bool) (ha : (IM.fresh dyn).addAll l = some im) (order : List Import) (hperm : order.Perm im.imports)
     (st : Import) (hst : st ∈ im.imports) (hne : st.module ≠ []) (m : Nat)
     (hm : lookup st.module w.modules = some m) (name : List String) :
     ∃ sel, im.selectorOf st.module name = some sel ∧
       resolve w { dyn := true, symtab := symtabOf w order } sel = follow w m name := by
-  have hinv := inv_addAll {} im l inv_empty ha
+  have hinv := inv_addAll (IM.fresh dyn) im l (inv_fresh dyn) ha
   have hnd : (order.map Import.boundName).Nodup := by
-    have := bound_names_distinct l im ha
+    have := bound_names_distinct l im dyn ha
     exact (hperm.map _).nodup_iff.2 this
   have hin : st ∈ order := hperm.mem_iff.2 hst
   -- the recorded selector of this module
@@ -243,5 +297,11 @@ example :
                          { module := ["b", "m"], isFrom := true, alias := some "m2" }],
              selectors := [(["a", "m"], ["m"]), (["b", "m"], ["m2"])], names := ["m", "m2"] } := by
   rfl
+
+/-- non-vacuity of `no_import_binds_reserved`: a module named `gin` inside a package is printed as `gin2` -/
+example :
+    ((IM.fresh true).addAll [{ module := ["p", "gin"], isFrom := true }]).map (·.imports) =
+      some [{ module := ["p", "gin"], isFrom := true, alias := some "gin2" }] := by
+  decide +kernel
 
 end Gin.C19
